@@ -165,7 +165,7 @@ func Build(cfg Config) (string, error) {
 	}
 	dec := json.NewDecoder(bytes.NewReader(out))
 	pkgs := map[string]*listPkg{}
-	var order []*listPkg
+	var order, variants []*listPkg
 	for {
 		var p listPkg
 		if err := dec.Decode(&p); err == io.EOF {
@@ -177,11 +177,25 @@ func Build(cfg Config) (string, error) {
 			return "", fmt.Errorf("go list: package %s: %s", p.ImportPath, p.Error.Err)
 		}
 		if p.ForTest != "" || strings.HasSuffix(p.ImportPath, ".test") || strings.Contains(p.ImportPath, " [") {
+			if i := strings.Index(p.ImportPath, " ["); i > 0 && p.Name != "main" && !strings.HasSuffix(p.Name, "_test") {
+				pv := p
+				pv.ImportPath = p.ImportPath[:i]
+				variants = append(variants, &pv)
+			}
 			continue
 		}
 		pp := p
 		pkgs[p.ImportPath] = &pp
 		order = append(order, &pp)
+	}
+	// a package that imports the package under test is listed only as its recompiled
+	// test variant ("q [p.test]", reached from p's external test package): it is part of
+	// the build and must be instrumented like any other
+	for _, pv := range variants {
+		if _, ok := pkgs[pv.ImportPath]; !ok {
+			pkgs[pv.ImportPath] = pv
+			order = append(order, pv)
+		}
 	}
 	exports := map[string]string{}
 	for ip, p := range pkgs {
